@@ -78,7 +78,9 @@ Apply(S, op, par, hs, res, uid) ==
   IF op = "sum" /\ par.k = 0 THEN Clone(S, hs[1], res)      \* sum(0) is the identity
   ELSE
   LET ts == OperandTs(S, hs)
-      trk == AnyTracked(S, hs)
+      \* library operations: tracked iff some operand handle is tracked (C09);  a user operation given to
+      \* Array::op is tracked, and records its operands, iff it comes with a derivative closure (par.bw)
+      trk == IF "bw" \in DOMAIN par THEN par.bw ELSE AnyTracked(S, hs)
       n == Len(S.nodes) + 1
       kids == IF trk THEN [i \in 1..Len(hs) |-> S.hd[hs[i]]] ELSE <<>>
       buf == IF op = "reshape" THEN S.nodes[S.hd[hs[1]].n].buf ELSE n
